@@ -12,7 +12,8 @@ from ..common import MachineryError, NCPU
 from .. import build, tlc, run, idb, cpplib
 
 BATCH = 200
-QUICK = ["Export_sections", "Export_kinds", "Export_nested", "Export_files", "Export_filetops", "Export_tops", "Export_tops2", "Export_cmds"]
+QUICK = ["Export_sections", "Export_kinds", "Export_nested", "Export_files", "Export_filetops", "Export_tops", "Export_tops2", "Export_cmds",
+         "Export_alias", "Export_aliasfile", "Export_aliasnest"]
 THOROUGH = ["Export_sections"] + [c + "_t" for c in QUICK]
 
 
